@@ -35,7 +35,7 @@ cr=m.setdefault('checks_run',{})
 for item in res.split(';'):
     if not item: continue
     c,code,cls,runs,tier,budget=item.split(':')
-    cr[c]={'cmd':('./check %s --tier %s'%(c,tier))+((' --budget %s'%budget) if budget else '')+' (change applied to a scratch worktree, tools/trial.sh)','exit':int(code),
+    cr[c if tier=='quick' else c+'@'+tier]={'cmd':('./check %s --tier %s'%(c,tier))+((' --budget %s'%budget) if budget else '')+' (change applied to a scratch worktree, tools/trial.sh)','exit':int(code),
            'detected':code=='1','first_violation_class':cls or None,'runs':runs}
 json.dump(m,open(p,'w'),indent=1)
 PY
